@@ -566,6 +566,13 @@ class C10:
                         conds = [float(x) for x in list(l1["last_jac_cond"][n0:]) + list(l3["last_jac_cond"][n0:])]
                         if any((x != x) or x > 1e3 for x in conds):
                             bref = None          # ill-conditioned: rounding of the finite differences is amplified
+                        # the discrete decisions of the line search (bisection depth, knobs held at a limit, number of steps)
+                        # must have gone the same way: a trial point that lands on a limit to the last bit is inside for one
+                        # and outside for the other
+                        if len(l1["penalty"]) != len(l3["penalty"]) or [x for x in l1["alpha"][n0:]] != [x for x in l3["alpha"][n0:]] or \
+                                list(l1["hit_limits"][n0:]) != list(l3["hit_limits"][n0:]):
+                            bref = None
+                    if bref is not None and c[0] in ("step", "solve"):
                         # a secant update between two (nearly) identical points divides rounding noise by rounding noise
                         pts = ([prev_jac_k] if prev_jac_k is not None else []) + [[float(x) for x in l1["knobs"][r]] for r in range(n0, len(l1["knobs"]))
                                                                                     if l1["tag"][r] != "take_best"]
